@@ -75,6 +75,9 @@ pub struct Fired {
     /// a catchable signal was delivered mid-run (counts as `crashed` for the expectations)
     pub signalled: bool,
     pub crashed: bool,
+    /// the interposer ended the run: the same persistent failure was answered to the same
+    /// target thousands of times in a row (unbounded retry) - (target, kind)
+    pub livelock: Option<(String, String)>,
     /// kinds that fired at least once, with counts (for evidence)
     pub kinds: Vec<(String, u64)>,
 }
@@ -115,6 +118,10 @@ pub fn fired(trace: &[TraceEvent]) -> Fired {
     let mut counts: std::collections::BTreeMap<String, u64> = Default::default();
     for ev in trace {
         let Some((_, kind)) = &ev.fault else { continue };
+        if ev.sym == "livelock" {
+            f.livelock = Some((ev.target.clone(), kind.clone()));
+            continue;
+        }
         *counts.entry(kind.clone()).or_default() += 1;
         match kind.as_str() {
             "openr" => {
